@@ -1,6 +1,6 @@
 \* EXPECTED VIOLATION: messages outside the grammar (async-lsp terminates the loop)
 CONSTANTS
- Docs = {"d1", "d2", "d3", "e", "n", "q", "o", "h", "u", "g"}
+ Docs = {"d1", "d2", "d3", "e", "n", "p", "q", "o", "h", "u", "g"}
  Mode = "seq"
  MaxEdits = 0
  MaxReqs = 2
